@@ -117,6 +117,11 @@ def awaitAll (dl : List (Pid × Res)) : List Pid → Option (Option Res)
     | none => none
     | some r => if r.err then some (some r) else awaitAll dl ps
 
+/-- A sequence of sends to promises. -/
+def St.deliverAll (s : St) : List (Pid × Res) → St
+  | [] => s
+  | x :: xs => (s.deliver x.1 x.2).deliverAll xs
+
 def resultsFor (rs : List (Nat × List Res)) (k : Nat) : List Res :=
   match rs.find? (fun x => x.1 == k) with
   | some x => x.2
@@ -125,9 +130,22 @@ def resultsFor (rs : List (Nat × List Res)) (k : Nat) : List Res :=
 /-- `for i, result := range b.resolver(b.items) { b.dests[i] <- result }` -/
 def flushOne (wave : Nat) (rs : List (Nat × List Res)) (s : St) (b : Batch) : St :=
   let res := resultsFor rs b.key
-  let s1 := (b.dests.zip res).foldl (fun s x => s.deliver x.1 x.2) s
+  let s1 := s.deliverAll (b.dests.zip res)
   { s1 with calls := ⟨wave, b.key, b.items, b.dests, res⟩ :: s1.calls,
             crashed := s1.crashed || decide (b.dests.length < res.length) }
+
+/-- The flush phase: every pending batch function is called once (the goroutines only touch their
+    own batch's promises, so their interleaving does not matter; the handler waits for all). -/
+def flushAll (wave : Nat) (rs : List (Nat × List Res)) (s : St) : List Batch → St
+  | [] => s
+  | b :: bs => flushAll wave rs (flushOne wave rs s b) bs
+
+/-- Is `r` an admissible return value of a chain/join body whose inputs gave `e`? An input error is
+    returned as it is; otherwise `f` decides. -/
+def finOK (e : Option Res) (r : Res) : Bool :=
+  match e with
+  | none => true
+  | some x => r == x
 
 /-- `Batch`'s returned resolver: append to the batch of this key, creating it if needed. -/
 def addToBatch (bs : List Batch) (k item : Nat) (p : Pid) : List Batch :=
@@ -141,7 +159,7 @@ def errFinished : Res := ⟨0, true⟩
 
 /-- `finish()`: every promise still pending in a batch receives an error. -/
 def finishBatches (s : St) : St :=
-  let s1 := (s.batches.flatMap (·.dests)).foldl (fun s p => s.deliver p errFinished) s
+  let s1 := s.deliverAll ((s.batches.flatMap (·.dests)).map (fun p => (p, errFinished)))
   { s1 with batches := [] }
 
 def step (c : Cfg) (s : St) : Label → Option St
@@ -162,11 +180,8 @@ def step (c : Cfg) (s : St) : Label → Option St
     | some task =>
       match awaitAll s.delivered task.waits with
       | none => none
-      | some (some e) =>
-        if r != e then none else
-        some { s with running := s.running.filter (fun x => x.id != t), blocked := (t, r) :: s.blocked,
-                      finished := (t, r) :: s.finished }
-      | some none =>
+      | some e =>
+        if !finOK e r then none else
         some { s with running := s.running.filter (fun x => x.id != t), blocked := (t, r) :: s.blocked,
                       finished := (t, r) :: s.finished }
   | .idle =>
@@ -176,7 +191,7 @@ def step (c : Cfg) (s : St) : Label → Option St
     else none
   | .flush rs =>
     if s.crashed || s.phase != .top || s.batches.isEmpty then none else
-    let s1 := s.batches.foldl (flushOne s.wave rs) s
+    let s1 := flushAll s.wave rs s s.batches
     some { s1 with batches := [], phase := .drain, progress := true }
   | .recvBlock t =>
     if s.crashed || s.destFull || s.phase != .top || !s.batches.isEmpty then none else
